@@ -4,9 +4,11 @@ import KdVerif.Proofs.ContainerV2
 import KdVerif.Proofs.Trunc
 import KdVerif.Proofs.TracePipeline
 import KdVerif.Model.ContainerV3
+import KdVerif.Proofs.ContainerV3
 /-
   Cross-layer composition lemmas about `Model/EndToEnd.lean` (`dumpOf`, `formatAll`, `formattedTraces`):
-  * `dumpOf` on an encoded version-2 file (round trip of the container layer, composed with C01);
+  * `dumpOf` on an encoded version-2 file (round trip of the container layer, composed with C01), and on an encoded
+    version-3 file (`dumpOf_encoded_v3`: thread-map chunk + the records of all chunks);
   * `dumpOf` on a cut file (`dumpOf_trunc`: same thread map, events a prefix) and the prefix-preservation of every
     stage behind it (event filter, `runAnnot`, post-filters, `formatAll`);
   * the shape of what `formatAll` returns (`formatAll_shape`).
@@ -61,8 +63,9 @@ theorem headerV2_encoded (f : V2File) (wf : f.WF) {r : Reader} (h : r.rest = v2B
   obtain ⟨r', e', _⟩ := headerV2_cont (n := f.threads.length) h' hn wts hi hk c rfl
   exact ⟨_, r', e', rfl⟩
 
-theorem dumpOf_encoded (f : V2File) (wf : f.WF) (h0 : ∀ x, f.recs.head? = some x → x.head? ≠ some 0) :
-    dumpOf (encodeV2 f) =
+theorem dumpOf_encoded (plist : Bytes → Option PView) (f : V2File) (wf : f.WF)
+    (h0 : ∀ x, f.recs.head? = some x → x.head? ≠ some 0) :
+    dumpOf plist (encodeV2 f) =
       .ok ({ threadMap := threadMapOf (f.threads.map toEntry), events := f.recs.map specDecode }, none) := by
   obtain ⟨hm, hr⟩ := read_magic f
   obtain ⟨hd, r', eh, htm⟩ := headerV2_encoded f wf hr
@@ -73,8 +76,8 @@ theorem dumpOf_encoded (f : V2File) (wf : f.WF) (h0 : ∀ x, f.recs.head? = some
   simp only [hm, if_true, eh, he, herr, htm]
 
 /-- Without the first-byte hypothesis: the dump is still readable and its thread map is the file's. -/
-theorem dumpOf_encoded_threadMap (f : V2File) (wf : f.WF) :
-    ∃ d c, dumpOf (encodeV2 f) = .ok (d, c) ∧ d.threadMap = threadMapOf (f.threads.map toEntry) := by
+theorem dumpOf_encoded_threadMap (plist : Bytes → Option PView) (f : V2File) (wf : f.WF) :
+    ∃ d c, dumpOf plist (encodeV2 f) = .ok (d, c) ∧ d.threadMap = threadMapOf (f.threads.map toEntry) := by
   obtain ⟨hm, hr⟩ := read_magic f
   obtain ⟨hd, r', eh, htm⟩ := headerV2_encoded f wf hr
   refine ⟨{ threadMap := threadMapOf (f.threads.map toEntry),
@@ -92,9 +95,9 @@ theorem dumpOf_encoded_threadMap (f : V2File) (wf : f.WF) :
     are a prefix of the events of the whole file.  (The greedy zero skipper `_pad` looks one byte ahead, so a cut inside
     the padding — or inside leading zero bytes of the first record — ends the padding earlier than in the whole file;
     but then the cut file ends there too and delivers no event: `zeroSkip_detW`.) -/
-theorem dumpOf_trunc (file : Bytes) (k : Nat) (d' : Dump) (c' : Option PyErr)
-    (h : dumpOf (file.take k) = .ok (d', c')) :
-    ∃ d c, dumpOf file = .ok (d, c) ∧ d'.threadMap = d.threadMap ∧ d'.events <+: d.events := by
+theorem dumpOf_trunc (plist : Bytes → Option PView) (file : Bytes) (k : Nat) (d' : Dump) (c' : Option PyErr)
+    (h : dumpOf plist (file.take k) = .ok (d', c')) :
+    ∃ d c, dumpOf plist file = .ok (d, c) ∧ d'.threadMap = d.threadMap ∧ d'.events <+: d.events := by
   have h0 : Rel k (Reader.ofBytes file) (Reader.ofBytes (file.take k)) := ⟨rfl, rfl⟩
   unfold dumpOf at h ⊢
   by_cases hl : ((Reader.ofBytes (file.take k)).read Gen.Consts.RAW_VERSION_SIZE).1.length = Gen.Consts.RAW_VERSION_SIZE
@@ -116,11 +119,39 @@ theorem dumpOf_trunc (file : Bytes) (k : Nat) (d' : Dump) (c' : Option PyErr)
         · rw [← hd1, htm]
         · rw [← hd1]
           exact parseV2_trunc decodeRecord decodeRecord_rejectsShort Tables.empty Tables.empty h2
-    · simp only [hv, if_false] at h
-      simp at h
+    · simp only [hv, if_false] at h ⊢
+      by_cases hv3 : ((Reader.ofBytes (file.take k)).read Gen.Consts.RAW_VERSION_SIZE).1 = Gen.Consts.RAW_VERSION3_BYTES
+      · simp only [hv3, if_true] at h ⊢
+        cases hh' : headerV3 plist ((Reader.ofBytes (file.take k)).read Gen.Consts.RAW_VERSION_SIZE).2 with
+        | mk res' r1' =>
+        rw [hh'] at h
+        cases res' with
+        | error e => simp at h
+        | ok hd' =>
+          obtain ⟨r1, hh, hr1⟩ := Det.headerV3 plist k _ _ h2 hd' r1' hh'
+          rw [hh]
+          dsimp only at h ⊢
+          cases ht' : threadmapV3 r1' with
+          | mk res2' r2' =>
+          rw [ht'] at h
+          cases res2' with
+          | error e => simp at h
+          | ok tm =>
+            obtain ⟨r2, ht, _⟩ := Det.threadmapV3 k r1 r1' hr1 tm r2' ht'
+            rw [ht]
+            simp only [Except.ok.injEq, Prod.mk.injEq] at h
+            obtain ⟨hd1, _⟩ := h
+            refine ⟨_, _, rfl, ?_, ?_⟩
+            · rw [← hd1]
+            · rw [← hd1]
+              exact parseV3_trunc plist decodeRecord decodeRecord_rejectsShort freshParser freshParser h2
+      · simp only [hv3, if_false] at h
+        simp at h
   · have n2 : ¬ ((Reader.ofBytes (file.take k)).read Gen.Consts.RAW_VERSION_SIZE).1 = Gen.Consts.RAW_VERSION2_BYTES :=
       fun e => hl (by rw [e]; rfl)
-    simp only [n2, if_false] at h
+    have n3 : ¬ ((Reader.ofBytes (file.take k)).read Gen.Consts.RAW_VERSION_SIZE).1 = Gen.Consts.RAW_VERSION3_BYTES :=
+      fun e => hl (by rw [e]; rfl)
+    simp only [n2, n3, if_false] at h
     simp at h
 
 /-! ### the stages behind the container preserve prefixes -/
@@ -230,14 +261,14 @@ theorem formatAll_prefix (sh : Format.Show) {l₁ l₂ : List (TraceOut × Tabs)
       exact (List.cons_prefix_cons).2 ⟨rfl, ih⟩
 
 /-- The lines of `formattedTraces` are the lines of `formatAll` over the traces of the dump. -/
-theorem formattedTraces_lines (env : Env) (obj : Obj) (sh : Format.Show) (file : Bytes) (d : Dump) (c : Option PyErr)
-    (h : dumpOf file = .ok (d, c)) :
-    (formattedTraces env obj sh file).1 = (formatAll sh (traces env obj d).1.traces).1 := by
+theorem formattedTraces_lines (env : Env) (obj : Obj) (sh : Format.Show) (plist : Bytes → Option PView) (file : Bytes)
+    (d : Dump) (c : Option PyErr) (h : dumpOf plist file = .ok (d, c)) :
+    (formattedTraces env obj sh plist file).1 = (formatAll sh (traces env obj d).1.traces).1 := by
   simp only [formattedTraces, h]
 
-theorem formattedTraces_err (env : Env) (obj : Obj) (sh : Format.Show) (file : Bytes) (d : Dump) (c : Option PyErr)
-    (h : dumpOf file = .ok (d, c)) :
-    (formattedTraces env obj sh file).2 =
+theorem formattedTraces_err (env : Env) (obj : Obj) (sh : Format.Show) (plist : Bytes → Option PView) (file : Bytes)
+    (d : Dump) (c : Option PyErr) (h : dumpOf plist file = .ok (d, c)) :
+    (formattedTraces env obj sh plist file).2 =
       match (formatAll sh (traces env obj d).1.traces).2 with
       | some e => some e
       | none => match (traces env obj d).1.err with
@@ -246,19 +277,21 @@ theorem formattedTraces_err (env : Env) (obj : Obj) (sh : Format.Show) (file : B
   simp only [formattedTraces, h]
   cases (formatAll sh (traces env obj d).1.traces).2 <;> cases (traces env obj d).1.err <;> rfl
 
-theorem formattedTraces_unreadable (env : Env) (obj : Obj) (sh : Format.Show) (file : Bytes) (e : PyErr)
-    (h : dumpOf file = .error e) : formattedTraces env obj sh file = ([], some e) := by
+theorem formattedTraces_unreadable (env : Env) (obj : Obj) (sh : Format.Show) (plist : Bytes → Option PView)
+    (file : Bytes) (e : PyErr) (h : dumpOf plist file = .error e) :
+    formattedTraces env obj sh plist file = ([], some e) := by
   simp only [formattedTraces, h]
 
 /-- **Truncation, end to end.** -/
-theorem formattedTraces_trunc (env : Env) (obj : Obj) (sh : Format.Show) (file : Bytes) (k : Nat) :
-    (formattedTraces env obj sh (file.take k)).1 <+: (formattedTraces env obj sh file).1 := by
-  cases h' : dumpOf (file.take k) with
-  | error e => rw [formattedTraces_unreadable env obj sh _ e h']; exact List.nil_prefix
+theorem formattedTraces_trunc (env : Env) (obj : Obj) (sh : Format.Show) (plist : Bytes → Option PView) (file : Bytes)
+    (k : Nat) :
+    (formattedTraces env obj sh plist (file.take k)).1 <+: (formattedTraces env obj sh plist file).1 := by
+  cases h' : dumpOf plist (file.take k) with
+  | error e => rw [formattedTraces_unreadable env obj sh plist _ e h']; exact List.nil_prefix
   | ok p =>
     obtain ⟨d', c'⟩ := p
-    obtain ⟨d, c, h, htm, hev⟩ := dumpOf_trunc file k d' c' h'
-    rw [formattedTraces_lines env obj sh _ d' c' h', formattedTraces_lines env obj sh _ d c h]
+    obtain ⟨d, c, h, htm, hev⟩ := dumpOf_trunc plist file k d' c' h'
+    rw [formattedTraces_lines env obj sh plist _ d' c' h', formattedTraces_lines env obj sh plist _ d c h]
     exact formatAll_prefix sh (traces_prefix env obj htm hev)
 
 /-! ### what `formatAll` returns -/
@@ -357,11 +390,81 @@ theorem events_map_ev' {ε : Type} (l : List ε) (e : Option PyErr) (t t' : Tabl
   | nil => rfl
   | cons a l ih => simpa [Out.ev?] using ih
 
-/-- A readable dump of the composition is what `KdBufParser.parse` (the subject of C02 and C06) delivers for the same
-    bytes, whatever the parser object held before: the same events, the same final exception, and the tables are
+/-- `parse_v3` resets the attributes it reports before it looks at the blocks: what it delivers and how it ends depends
+    on the attributes of the parser object only through `reset`. -/
+theorem tailOfBlocks_reset {ε : Type} (plist : Bytes → Option PView) (evs : List ε) (t : Tables) (m m' : V3Meta)
+    (hm : m.reset = m'.reset) (blocks : List (Bytes × Bytes)) (r2 : Reader) :
+    (tailOfBlocks plist evs t m blocks r2).outs = (tailOfBlocks plist evs t m' blocks r2).outs ∧
+    (tailOfBlocks plist evs t m blocks r2).err = (tailOfBlocks plist evs t m' blocks r2).err := by
+  unfold tailOfBlocks
+  rw [hm]
+  split <;> exact ⟨rfl, rfl⟩
+
+theorem tailV3_reset {ε : Type} (plist : Bytes → Option PView) (evs : List ε) (t : Tables) (m m' : V3Meta)
+    (hm : m.reset = m'.reset) (r : Reader) :
+    (tailV3 plist evs t m r).outs = (tailV3 plist evs t m' r).outs ∧
+    (tailV3 plist evs t m r).err = (tailV3 plist evs t m' r).err := by
+  unfold tailV3
+  dsimp only
+  cases greedyRange blockElem ((r.seekTo (r.pos - 8)).rest.length / 16 + 2) (r.seekTo (r.pos - 8)) with
+  | mk res r2 =>
+  cases res with
+  | error e => exact ⟨rfl, rfl⟩
+  | ok blocks => exact tailOfBlocks_reset plist evs t m m' hm blocks r2
+
+/-- What a version-3 run delivers and how it ends does not depend on what the parser object held before
+    (`set_thread_map` clears the tables; the attributes are reset). -/
+theorem parseV3_prior_irrelevant {ε : Type} (plist : Bytes → Option PView) (dec : Bytes → Except PyErr ε)
+    (prior prior' : PState) (r : Reader) :
+    (parseV3 plist dec prior r).outs = (parseV3 plist dec prior' r).outs ∧
+    (parseV3 plist dec prior r).err = (parseV3 plist dec prior' r).err := by
+  unfold parseV3
+  cases headerV3 plist r with
+  | mk res r1 =>
+  cases res with
+  | error e => exact ⟨rfl, rfl⟩
+  | ok hd =>
+    dsimp only
+    cases threadmapV3 r1 with
+    | mk res2 r2 =>
+    cases res2 with
+    | error e => exact ⟨rfl, rfl⟩
+    | ok tm =>
+      dsimp only
+      cases (chunkLoop dec (r2.rest.length / 16 + 2) r2).2.1 with
+      | some e => exact ⟨rfl, rfl⟩
+      | none =>
+        dsimp only
+        refine tailV3_reset plist _ _ _ _ ?_ _
+        rfl
+
+/-- while the events are delivered the tables are `set_thread_map` of the thread-map chunk. -/
+theorem parseV3_tmTables {ε : Type} (plist : Bytes → Option PView) (dec : Bytes → Except PyErr ε) (prior : PState)
+    {r r1 r2 : Reader} {hd : List Nat × Bytes} {tm : List ThreadEntry} (hh : headerV3 plist r = (.ok hd, r1))
+    (ht : threadmapV3 r1 = (.ok tm, r2)) :
+    (parseV3 plist dec prior r).tmTables = setThreadMap prior.tables tm := by
+  unfold parseV3
+  rw [hh]
+  dsimp only
+  rw [ht]
+  dsimp only
+  have tl : ∀ (evs : List ε) (t : Tables) (m : V3Meta) (x : Reader), (tailV3 plist evs t m x).tmTables = t := by
+    intro evs t m x
+    unfold tailV3
+    dsimp only
+    split
+    · rfl
+    · unfold tailOfBlocks
+      split <;> rfl
+  split
+  · rfl
+  · exact tl _ _ _ _
+
+/-- A readable dump of the composition is what `KdBufParser.parse` (the subject of C02, C03 and C06) delivers for the
+    same bytes, whatever the parser object held before: the same events, the same final exception, and the tables are
     `set_thread_map` of the thread map whose decoded form the trace layer receives. -/
 theorem dumpOf_is_parse (plist : Bytes → Option PView) (prior : PState) (file : Bytes) (d : Dump) (c : Option PyErr)
-    (h : dumpOf file = .ok (d, c)) :
+    (h : dumpOf plist file = .ok (d, c)) :
     (parse plist fromKdBuf prior file).events = d.events ∧ (parse plist fromKdBuf prior file).err = c ∧
     ∃ tm, d.threadMap = threadMapOf tm ∧ (parse plist fromKdBuf prior file).tmTables = setThreadMap prior.tables tm := by
   unfold dumpOf at h
@@ -383,8 +486,64 @@ theorem dumpOf_is_parse (plist : Bytes → Option PView) (prior : PState) (file 
       · rw [← hc]; exact p2
       · rw [← hd1]
       · simp only [parseV2, hh]
-  · simp only [hv, if_false] at h
-    simp at h
+  · simp only [hv, if_false] at h ⊢
+    by_cases hv3 : ((Reader.ofBytes file).read Gen.Consts.RAW_VERSION_SIZE).1 = Gen.Consts.RAW_VERSION3_BYTES
+    · simp only [hv3, if_true] at h ⊢
+      obtain ⟨p1, p2⟩ := parseV3_prior_irrelevant plist fromKdBuf prior freshParser
+        ((Reader.ofBytes file).read Gen.Consts.RAW_VERSION_SIZE).2
+      cases hh : headerV3 plist ((Reader.ofBytes file).read Gen.Consts.RAW_VERSION_SIZE).2 with
+      | mk res r1 =>
+      rw [hh] at h
+      cases res with
+      | error e => simp at h
+      | ok hd =>
+        dsimp only at h
+        cases ht : threadmapV3 r1 with
+        | mk res2 r2 =>
+        rw [ht] at h
+        cases res2 with
+        | error e => simp at h
+        | ok tm =>
+          simp only [Except.ok.injEq, Prod.mk.injEq] at h
+          obtain ⟨hd1, hc⟩ := h
+          refine ⟨?_, ?_, tm, ?_, parseV3_tmTables plist fromKdBuf prior hh ht⟩
+          · rw [← hd1]; simp only [Run3.events, p1]; rfl
+          · rw [← hc, p2]; rfl
+          · rw [← hd1]
+    · simp only [hv3, if_false] at h
+      simp at h
+
+/-! ### the container layer on an encoded version-3 file -/
+
+theorem decodeRecord_v3recs (f : V3File) (wf : f.WF) : ∀ x ∈ f.recs, decodeRecord x = .ok (specDecode x) := by
+  intro x hx
+  simp only [V3File.recs, List.mem_flatMap] at hx
+  obtain ⟨c, hc, hxc⟩ := hx
+  have := (wf.2.2.2.2.2.2.2.2.2.1 c hc).2.2.2.2 x hxc
+  exact C01.decode_eq_spec x this.1 this.2
+
+/-- **The encoded version-3 file as the trace layer sees it.**  The thread-map chunk's entries and the decodings of the
+    records of ALL chunks in file order; the exception the container ends with is the one the block loop / log loop ends
+    with on exactly the file's blocks. -/
+theorem dumpOf_encoded_v3 (plist : Bytes → Option PView) (f : V3File) (wf : f.WF) (hcpu : plist f.cpu ≠ none) :
+    ∃ rd, dumpOf plist (encodeV3 f) =
+      .ok ({ threadMap := threadMapOf (f.threads.map toEntry), events := f.recs.map specDecode },
+           (tailOfBlocks plist (f.recs.map specDecode) (setThreadMap Tables.empty (f.threads.map toEntry))
+              { freshParser.md with header := some (f.hdr, f.cpu) } (f.blocks.map fun b => (b.tag, b.payload)) rd).err) := by
+  obtain ⟨r2, r3, rd, hm, eh, et, hp⟩ := parse_encodeV3_steps plist decodeRecord specDecode decodeRecord_rejectsShort
+    freshParser f wf hcpu (decodeRecord_v3recs f wf)
+  refine ⟨rd, ?_⟩
+  have hnot2 : ¬ Gen.Consts.RAW_VERSION3_BYTES = Gen.Consts.RAW_VERSION2_BYTES := by decide
+  have hev : (tailOfBlocks plist (f.recs.map specDecode) (setThreadMap freshParser.tables (f.threads.map toEntry))
+      { freshParser.md with header := some (f.hdr, f.cpu) } (f.blocks.map fun b => (b.tag, b.payload)) rd).events =
+      f.recs.map specDecode := by
+    unfold tailOfBlocks
+    split
+    · exact events_evs _ _ _ _ _ _
+    · exact events_evs_logs _ _ _ _ _ _ _
+  unfold dumpOf
+  simp only [hm, hnot2, if_false, if_true, eh, et, hp, hev]
+  rfl
 
 /-! ### a concrete dump (non-vacuity witnesses of the composition theorems) -/
 
